@@ -22,9 +22,10 @@ PROP = dict(
                  "gcc on x86-64 without FMA contraction; -O2 (ref) and -O1 ASan/UBSan builds"],
     technique=("class-directed random execution of the real Euler/Matrix/Quat code against a long double compositional reference; "
                "bit-exact differential checks between the textual copies (toMatrix33/44, extract 3x3/4x4); ASan/UBSan on a sampled sweep"),
-    level_text=("All 24 orders, both scalar types and every entry point named in the statement are driven on every run: 2.4*10^6 (quick) / "
-                "2.4*10^8 (thorough) Euler->matrix/quaternion cases, 1.9*10^6 / 1.9*10^8 extraction cases (x 5 extraction entry points), all 576 "
-                "re-ordering pairs, and the gimbal-lock neighbourhoods 1e-1..1e-15 of each order deterministically. The angle space itself "
+    level_text=("All 24 orders, both scalar types and every entry point named in the statement are driven on every run: 9.6*10^6 (quick) / "
+                "1.2*10^8 (thorough) Euler->matrix/quaternion cases, 7.7*10^6 / 9.6*10^7 extraction cases (x 5 extraction entry points), all 576 "
+                "re-ordering pairs (1.2*10^6 / 4.6*10^7 cases), 4*10^6 / 10^8 MatrixAlgo extractor cases, 1.6*10^7 / 2*10^8 angleMod and "
+                "7.7*10^6 / 9.6*10^7 makeNear-family cases, and the gimbal-lock neighbourhoods 1e-1..1e-15 of each order deterministically. The angle space itself "
                 "(2^96 / 2^192 triples) is sampled, not exhausted."),
     level_note=("angle triples and rotations are sampled; huge angles (beyond +-4 periods, +-1000 periods for angleMod) are not driven; the names of "
                 "the rotating-frame enumerators are not judged"),
